@@ -233,13 +233,37 @@ def zCombineStore (db : DB) (d : Bytes) (ks : List Bytes) (agg : Agg) (inter : B
     | .error e => .err e db2
     | .ok (db3, n) => .ok (.int n) db3
 
-/-- `sqlScan`: no `order by`; the planner answers it from the covering index
-`rzset_score_idx (kid, score, elem)`, so rows come ordered by (score, elem) -/
+/-- the literal prefix of a GLOB pattern: the bytes before the first `*`, `?`, `[` or NUL -/
+def globPrefix : Bytes → Bytes
+  | [] => []
+  | c :: cs => if c == 42 || c == 63 || c == 91 || c == 0 then [] else c :: globPrefix cs
+
+/-- How SQLite orders the rows of `sqlScan` (there is no `order by`): with a pattern that has a
+usable literal prefix, `isLikeOrGlob` turns `elem glob ?` into a range on `elem` and the planner
+walks `rzset_pk_idx (kid, elem)`; otherwise it answers from the covering index
+`rzset_score_idx (kid, score, elem)`. `elem` has BLOB affinity, so a prefix that looks like a
+number disables the optimisation; that test (`sqlite3AtoF`) is not modelled: `none`. -/
+def zScanByElem (pat : Bytes) : Option Bool :=
+  let pre := globPrefix (Glob.cstr pat)
+  match pre.head?, pre.getLast? with
+  | none, _ => some false
+  | some c, some l =>
+    if l == 255 then some false
+    else if isDigit c || c == 43 || c == 45 || c == 46 || c == 32 || (9 ≤ c && c ≤ 13) then none
+    else some true
+  | _, _ => some false
+
+/-- `sqlScan` -/
 def zScan (db : DB) (k : Bytes) (cursor : Int) (pat : Bytes) (count : Int) (now : Int) : Res :=
   let count := if count == 0 then scanPageSize else count
-  let rows := (zLiveRows db k now).filter (fun x => decide (x.rowid > cursor) && Glob.sqliteGlob pat x.elem)
-  let page := sqlLimit 0 count rows
-  let cur := maxD 0 (page.map (·.rowid))
-  .ok (.list [.int cur, .list (page.map zItem)]) db
+  match zScanByElem pat with
+  | none => .err .outOfDomain db
+  | some byElem =>
+    let rows := zLiveRows db k now
+    let rows := if byElem then sortBy (fun (a b : ZRow) => bytesLt a.elem b.elem) rows else rows
+    let rows := rows.filter (fun x => decide (x.rowid > cursor) && Glob.sqliteGlob pat x.elem)
+    let page := sqlLimit 0 count rows
+    let cur := maxD 0 (page.map (·.rowid))
+    .ok (.list [.int cur, .list (page.map zItem)]) db
 
 end Redka.Model
